@@ -702,6 +702,12 @@ def _catalogue_outcomes(only=None):
     return out
 
 
+def _modulo_underruns(o):
+    if isinstance(o, list) and len(o) >= 3 and isinstance(o[2], list):
+        return o[:2] + [[x for x in o[2] if x != 'UNDERRUN']] + o[3:]
+    return o
+
+
 def _interp_moved(where, trace, ctr):
     """Interpreter-wide configuration (recursion limit, int-to-text limit, switch interval, warning filters)
     after the calls must be what it was before them."""
@@ -943,6 +949,11 @@ def execute(plan):
         want = iso[ti]
         if want[0] == 'skip' or outcome is None or outcome[0] == 'skip':
             return
+        if plan.get('logging') and any(st_[0] == 'arm' for st_ in plan['tasks'][ti].get('steps') or ()):
+            # a logged decode reads on its own (the untagged-ANY log line peeks into the stream), so read faults
+            # armed by count fall on other reads than in the unlogged reference: how many polls report an
+            # underrun before an object is then not part of the outcome; objects, their order and the end are
+            outcome, want = _modulo_underruns(outcome), _modulo_underruns(want)
         if outcome != want:
             raise W.Violation('outcome-differs-from-isolated', task=ti, kind=plan['tasks'][ti]['t'], where=where,
                               on_neighbour=plan['tasks'][ti].get('nb'),
